@@ -31,6 +31,7 @@ import (
 	"sync"
 	"time"
 
+	"gitlab.com/aquachain/aquachain/aqua"
 	"gitlab.com/aquachain/aquachain/aqua/event"
 	"gitlab.com/aquachain/aquachain/aqua/filters"
 	"gitlab.com/aquachain/aquachain/aquadb"
@@ -938,6 +939,7 @@ type backend struct {
 	d        *dropper
 	mux      *event.TypeMux
 	feed     *event.Feed
+	node     *aqua.VerifBloomNode // when set: the node's real BloomStatus / ServiceFilter / retrieval handlers
 }
 
 func (b *backend) ChainDb() aquadb.Database { return b.db }
@@ -982,10 +984,19 @@ func (b *backend) SubscribeLogsEvent(ch chan<- []*types.Log) event.Subscription 
 func (b *backend) SubscribeChainEvent(ch chan<- core.ChainEvent) event.Subscription {
 	return b.feed.Subscribe(ch)
 }
-func (b *backend) BloomStatus() (uint64, uint64) { return b.size, b.sections }
+func (b *backend) BloomStatus() (uint64, uint64) {
+	if b.node != nil {
+		return b.node.BloomStatus()
+	}
+	return b.size, b.sections
+}
 
 // ServiceFilter: what aqua.startBloomHandlers does (GetBloomBits + DecompressBytes), per session.
 func (b *backend) ServiceFilter(ctx context.Context, session *bloombits.MatcherSession) {
+	if b.node != nil {
+		b.node.ServiceFilter(ctx, session)
+		return
+	}
 	serve(ctx, session, func(bit uint, sec uint64) []byte {
 		head := core.GetCanonicalHash(b.db, (sec+1)*b.size-1)
 		comp, err := core.GetBloomBits(b.db, bit, sec, head)
@@ -1518,6 +1529,8 @@ func main() {
 	poolA[5] = searchCoinciding(pr, 20, func(bit uint) bool { return bit%8 == 7 })
 	poolT[6] = searchCoinciding(pr, 32, func(bit uint) bool { return bit%8 != 7 })
 	poolT[7] = searchCoinciding(pr, 32, func(bit uint) bool { return bit%8 == 7 })
+	poolA[2] = make([]byte, 20) // the all-zero address and the all-zero topic are ordinary values: logs carry them, criteria name them
+	poolT[4] = make([]byte, 32)
 	poolA[3][0] = 0 // one pool address and one pool topic with a leading zero byte
 	poolT[5][0], poolT[5][1] = 0, 0
 	as := make([]string, len(poolA))
@@ -1623,10 +1636,12 @@ func main() {
 			g.partBusy(dd)
 		}
 		g.partReorg(9, dd)
+		g.partReindex(3, dd)
 	} else {
 		g.partCompress(200)
 		g.partBusy(dd)
 		g.partReorg(2, dd)
+		g.partReindex(1, dd)
 	}
 	for k, v := range vecStats {
 		run.Hist[k] += v
